@@ -1,7 +1,6 @@
 package main
 
-func checkC09Glue(c *Ctx, r *Report)        {}
-func asmPositiveControls(c *Ctx, r *Report) {}
+func checkC09Glue(c *Ctx, r *Report) {}
 
 func c16More(c *Ctx, r *Report, p *Prog, f *Folder, P, N interface{}) {
 	// (b) canonical decode: inventories of both SetBytes (bound folded to p-1 resp. n-1) and of the point decoder
@@ -13,5 +12,3 @@ func c15More(c *Ctx, r *Report, p *Prog, f *Folder) {
 	c03Decoders(r, p, f)
 	c12CurveEquation(r, p, f)
 }
-
-func taintPositiveControls(c *Ctx, r *Report) {}
